@@ -532,6 +532,25 @@ class linqset(linkseq[_T], MutableSequenceSet[_T]):
     def __contains__(self, value):
         return value in self.__table
 
+    def __setitem__(self, i, value) -> None:
+        """__setitem__(self, i, value)
+
+        Set value(s) by index/slice, keeping the hash table in step."""
+        if isinstance(i, SupportsIndex):
+            links = self._link_at(i),
+        elif isinstance(i, slice):
+            links = tuple(iter_links_sliced(self, i))
+        else:
+            links = ()
+        departures = tuple(link.value for link in links)
+        # Raises before anything is changed.
+        super().__setitem__(i, value)
+        table = self.__table
+        for departure in departures:
+            del table[departure]
+        for link in links:
+            table[link.value] = link
+
     def _link_of(self, value, /):
         try:
             return self.__table[value]
